@@ -169,7 +169,15 @@ impl FileUploadSession {
         {
             let mut upload_tasks = self.xorb_upload_tasks.lock().await;
             while let Some(result) = upload_tasks.try_join_next() {
-                result??;
+                let result: Result<()> = result.map_err(DataProcessingError::from).and_then(|r| r);
+                if let Err(e) = result {
+                    // The session fails as a unit: keep a failed entry in the task set so that every
+                    // later call, finalize included, reports the failure too instead of going on to
+                    // upload shards that reference a xorb that was never stored.
+                    let msg = format!("an earlier xorb upload failed: {e}");
+                    upload_tasks.spawn(async move { Err(DataProcessingError::UploadTaskError(msg)) });
+                    return Err(e);
+                }
             }
         }
 
